@@ -90,12 +90,21 @@ def def_items():
     items += [{'ty': 'def', 'name': 'c0', 'type': "bool", 'prop': "c0 <--> ?x"}, {'ty': 'def', 'name': 'c1', 'type': "'a => bool", 'prop': "c1 x <--> (x = ?y)"},
               {'ty': 'def', 'name': 'c3', 'type': "'a => 'a", 'prop': "c3 x = ?z"}, {'ty': 'def', 'name': 'c1', 'type': "'a => bool", 'prop': "c1 ?x <--> true"},
               {'ty': 'def', 'name': 'c1', 'type': "'a => bool", 'prop': "c1 x <--> (!u::'a. u = ?w)"}]
+    # a schematic variable on the right that shares its name with an argument variable
+    items += [{'ty': 'def', 'name': 'c3', 'type': "'a => 'a", 'prop': "c3 x = ?x"}, {'ty': 'def', 'name': 'c1', 'type': "'a => bool", 'prop': "c1 x <--> (?x = x)"},
+              {'ty': 'def', 'name': 'c2', 'type': "'a => 'a => bool", 'prop': "c2 x y <--> (?y = x)"}, {'ty': 'def', 'name': 'c6', 'type': "nat => bool", 'prop': "c6 n <--> (?n = 0)"},
+              {'ty': 'def', 'name': 'c6', 'type': "nat => bool", 'prop': "c6 n <--> ?n"}]
     # malformed / overloaded
     items += [{'ty': 'def', 'name': 'plus', 'type': "bool => bool => bool", 'prop': "plus (x::bool) y <--> x | y"},
               {'ty': 'def', 'name': 'c1', 'type': "'a => bool", 'prop': "c1 x --> true"},
               {'ty': 'def', 'name': 'c1', 'type': "'a => bool", 'prop': "d1 x <--> true"},
               {'ty': 'def', 'name': 'conj', 'type': "bool => bool => bool", 'prop': "conj x y <--> ~x"},
               {'ty': 'def', 'name': 'c1', 'type': "'a => bool", 'prop': "c1 (x::'b) <--> true"}]
+    # instances of overloaded constants that the theory already defines (nat): a second definition must not be installed
+    items += [{'ty': 'def', 'name': 'plus', 'type': "nat => nat => nat", 'prop': "plus (x::nat) y = 0"}, {'ty': 'def', 'name': 'plus', 'type': "nat => nat => nat", 'prop': "(x::nat) + y = Suc x"},
+              {'ty': 'def', 'name': 'less', 'type': "nat => nat => bool", 'prop': "(x::nat) < y <--> true"}, {'ty': 'def', 'name': 'less_eq', 'type': "nat => nat => bool", 'prop': "(x::nat) <= y <--> x = y"},
+              {'ty': 'def', 'name': 'times', 'type': "nat => nat => nat", 'prop': "(x::nat) * y = x"}, {'ty': 'def', 'name': 'zero', 'type': "nat", 'prop': "(0::nat) = Suc 0"},
+              {'ty': 'def', 'name': 'minus', 'type': "nat => nat => nat", 'prop': "(x::nat) - y = x"}]
     # new instances of overloaded constants (the name is already in the signature; the instance is what is being defined)
     for nm, sym in (('less', '<'), ('less_eq', '<='), ('plus', '+'), ('times', '*')):
         isrel = nm in ('less', 'less_eq')
@@ -167,6 +176,21 @@ def other_items():
         {'ty': 'def.ind', 'name': 'badty', 'type': 'nat => nat', 'rules': [{'prop': 'badty 0 = 0'}, {'prop': 'badty (Suc n) = (if badty n then 0 else 1)'}]},
         {'ty': 'def.pred', 'name': 'rel', 'type': "'a => 'a => bool", 'rules': [{'name': 'rel_refl', 'prop': 'rel x x'}, {'name': 'rel_sym', 'prop': 'rel x y --> rel y x'}]},
         {'ty': 'def.pred', 'name': 'le2', 'type': 'nat => nat => bool', 'rules': [{'name': 'le2_0', 'prop': 'le2 0 n'}, {'name': 'le2_S', 'prop': 'le2 m n --> le2 (Suc m) (Suc n)'}]},
+    ]
+    # rule variables named like the variables the generated cases rule introduces itself (P, _a1, ...)
+    items += [
+        {'ty': 'def.pred', 'name': 'foo', 'type': 'bool => bool', 'rules': [{'name': 'foo_intro', 'prop': 'P --> foo P'}]},
+        {'ty': 'def.pred', 'name': 'foo', 'type': 'bool => bool', 'rules': [{'name': 'foo_intro', 'prop': 'Q --> foo Q'}]},
+        {'ty': 'def.pred', 'name': 'foo1', 'type': "'a => bool", 'rules': [{'name': 'foo1_intro', 'prop': "(P::bool) --> foo1 (x::'a)"}]},
+        {'ty': 'def.pred', 'name': 'foo2', 'type': "'a => 'a => bool", 'rules': [{'name': 'foo2_intro', 'prop': "foo2 (_a2::'a) _a2"}]},
+        {'ty': 'def.pred', 'name': 'foo3', 'type': "nat => nat => bool", 'rules': [{'name': 'foo3_intro', 'prop': "foo3 _a2 (Suc _a1)"}, {'name': 'foo3_b', 'prop': "foo3 _a1 _a2 --> foo3 _a2 _a1"}]},
+    ]
+    # rules whose printed form needs a type annotation (numerals, empty set): the editor form carries colons inside the proposition
+    items += [
+        {'ty': 'def.pred', 'name': 'pz', 'type': 'nat => bool', 'rules': [{'name': 'pz_intro', 'prop': '(0::nat) < 1 --> pz 2'}, {'name': 'pz_step', 'prop': 'pz n --> pz (n + 2)'}]},
+        {'ty': 'def.pred', 'name': 'fin2', 'type': "'a set => bool", 'rules': [{'name': 'fin2_empty', 'prop': "fin2 (empty_set::'a set)"}, {'name': 'fin2_ins', 'prop': 'fin2 s --> fin2 (insert a s)'}]},
+        {'ty': 'def.ind', 'name': 'cz', 'type': "'a => nat", 'rules': [{'prop': "cz (x::'a) = (0::nat)"}]},
+        {'ty': 'def', 'name': 'c9', 'type': 'nat', 'prop': 'c9 = (if (0::nat) < 1 then 2 else 3)'},
     ]
     _D['other'] = items
     return items
@@ -356,6 +380,22 @@ def check_item(data):
             return 'def-inconsistent', 'definition `%s :: %s` with `%s` is accepted (error is None) but its defining equation is unsatisfiable (%s)' % (data['name'], data['type'], data['prop'], why), True
         if r == 'unknown':
             return '_unknown', why, True
+    if data['ty'] in ('def.pred', 'def.ind'):
+        # the generated theorems (introduction rules and the cases rule / the recursion equations) are installed as axioms about the
+        # new constant: some interpretation of the constant must satisfy all of them together
+        from kernel.term import And
+        ths = [close(ext.th.prop) for ext in exts if ext.is_theorem()]
+        if ths:
+            r, why = consistent(And(*ths) if len(ths) > 1 else ths[0], item.name, item.type)
+            if r == 'unsat':
+                try:
+                    theory.thy.unchecked_extend(exts)        # (the round trip reloaded the theory) for printing only
+                except Exception:
+                    pass
+                return 'def-inconsistent', 'item %s `%s :: %s` with rules %s is accepted, but the theorems it installs (%s) have no model (%s)' % (
+                    data['ty'], data['name'], data['type'], [r_['prop'] for r_ in data['rules']], '; '.join(str(ext.th.prop) for ext in exts if ext.is_theorem()), why), True
+            if r == 'unknown':
+                return '_unknown', why, True
     return None, 'fine', True
 
 
